@@ -144,7 +144,27 @@ func getParentMethodT(
 	isStatic bool,
 ) *T {
 
+	return walkParentMethodT(frame, class, method, isPrivate, isStatic, map[ClassNode]bool{})
+}
+
+// walkParentMethodT visits every class of the inheritance graph at most once, so a
+// cyclic hierarchy (class A < B; class B < A) ends the search instead of recursing for ever.
+func walkParentMethodT(
+	frame string,
+	class string,
+	method string,
+	isPrivate bool,
+	isStatic bool,
+	visited map[ClassNode]bool,
+) *T {
+
 	classNode := ClassNode{Frame: frame, Class: class}
+
+	if visited[classNode] {
+		return nil
+	}
+
+	visited[classNode] = true
 
 	for _, parentNode := range ClassInheritanceMap[classNode] {
 		var methodT *T
@@ -221,12 +241,13 @@ func getParentMethodT(
 		}
 
 		methodT =
-			getParentMethodT(
+			walkParentMethodT(
 				parentNode.Frame,
 				parentNode.Class,
 				method,
 				isPrivate,
 				isStatic,
+				visited,
 			)
 
 		if methodT != nil {
@@ -441,7 +462,26 @@ func setParentValueT(
 	isStatic bool,
 ) bool {
 
+	return walkSetParentValueT(frame, class, method, variable, t, isStatic, map[ClassNode]bool{})
+}
+
+func walkSetParentValueT(
+	frame string,
+	class string,
+	method string,
+	variable string,
+	t *T,
+	isStatic bool,
+	visited map[ClassNode]bool,
+) bool {
+
 	classNode := ClassNode{Frame: frame, Class: class}
+
+	if visited[classNode] {
+		return false
+	}
+
+	visited[classNode] = true
 
 	for _, parentNode := range ClassInheritanceMap[classNode] {
 		_, ok :=
@@ -466,7 +506,7 @@ func setParentValueT(
 		}
 
 		ok =
-			setParentValueT(parentNode.Frame, parentNode.Class, method, variable, t, isStatic)
+			walkSetParentValueT(parentNode.Frame, parentNode.Class, method, variable, t, isStatic, visited)
 
 		if ok {
 			return true
@@ -521,7 +561,25 @@ func getParentValueT(
 	isStatic bool,
 ) *T {
 
+	return walkParentValueT(frame, class, method, variable, isStatic, map[ClassNode]bool{})
+}
+
+func walkParentValueT(
+	frame string,
+	class string,
+	method string,
+	variable string,
+	isStatic bool,
+	visited map[ClassNode]bool,
+) *T {
+
 	classNode := ClassNode{Frame: frame, Class: class}
+
+	if visited[classNode] {
+		return nil
+	}
+
+	visited[classNode] = true
 
 	for _, parentNode := range ClassInheritanceMap[classNode] {
 		t, ok :=
@@ -538,7 +596,7 @@ func getParentValueT(
 		}
 
 		valueT :=
-			getParentValueT(parentNode.Frame, parentNode.Class, method, variable, isStatic)
+			walkParentValueT(parentNode.Frame, parentNode.Class, method, variable, isStatic, visited)
 
 		if valueT != nil {
 			return valueT
